@@ -234,19 +234,40 @@ func (w *vWorld) mint(a vAttrs, nonce, jti string, soon time.Time) (string, erro
 		hdr["kid"] = "no-such-key"
 	}
 	cl := map[string]any{"sub": vUser, "scope": "ego.logon", "nonce": nonce}
-	switch a.Iss {
-	case "match":
-		cl["iss"] = w.issuer
-	case "other":
-		cl["iss"] = "https://other-idp.example"
+	// near misses are string relations to the configured value (see Isss / Auds in JwtAuth.tla)
+	near := func(c, class string) (string, bool) {
+		switch class {
+		case "match":
+			return c, true
+		case "prefix":
+			return c[:len(c)-1], true
+		case "extpath":
+			return c + "/partner", true
+		case "exthost":
+			return c + ".attacker.example/", true
+		case "slash":
+			return c + "/", true
+		case "case":
+			i := strings.LastIndex(c, "/") + 1 // letters after the last slash change case (host and port stay as they are)
+			if up := c[:i] + strings.ToUpper(c[i:]); up != c {
+				return up, true
+			}
+			return c[:i] + strings.ToLower(c[i:]), true
+		case "other":
+			return "https://other-idp.example/tenant", true
+		}
+		return "", false
 	}
-	switch a.Aud {
-	case "match":
-		cl["aud"] = vAudience
-	case "multi":
+	if v, ok := near(w.issuer, a.Iss); ok {
+		cl["iss"] = v
+	}
+	if a.Aud == "multi" {
 		cl["aud"] = []string{"someone-else", vAudience}
-	case "other":
-		cl["aud"] = "someone-else"
+	} else if v, ok := near(vAudience, a.Aud); ok {
+		if a.Aud == "other" {
+			v = "someone-else"
+		}
+		cl["aud"] = v
 	}
 	now := time.Now()
 	switch a.Exp {
@@ -296,13 +317,13 @@ func newWorld(dir string, audcfg bool) (*vWorld, error) {
 	}
 	mux := http.NewServeMux()
 	srv := httptest.NewServer(mux)
-	w.issuer = srv.URL
-	mux.HandleFunc("/.well-known/openid-configuration", func(rw http.ResponseWriter, _ *http.Request) {
+	w.issuer = srv.URL + "/oauth2/default" // an issuer with a path, as real IdP tenants have
+	mux.HandleFunc("/oauth2/default/.well-known/openid-configuration", func(rw http.ResponseWriter, _ *http.Request) {
 		rw.Header().Set("Content-Type", "application/json")
-		json.NewEncoder(rw).Encode(map[string]any{"issuer": srv.URL, "jwks_uri": srv.URL + "/jwks",
-			"token_endpoint": srv.URL + "/token", "authorization_endpoint": srv.URL + "/authorize"})
+		json.NewEncoder(rw).Encode(map[string]any{"issuer": w.issuer, "jwks_uri": w.issuer + "/jwks",
+			"token_endpoint": w.issuer + "/token", "authorization_endpoint": w.issuer + "/authorize"})
 	})
-	mux.HandleFunc("/jwks", func(rw http.ResponseWriter, _ *http.Request) {
+	mux.HandleFunc("/oauth2/default/jwks", func(rw http.ResponseWriter, _ *http.Request) {
 		rw.Header().Set("Content-Type", "application/json")
 		rw.Write(w.jwks())
 	})
@@ -325,13 +346,13 @@ func newWorld(dir string, audcfg bool) (*vWorld, error) {
 		return nil, err
 	}
 	settings.Set(defs.EgoPathSetting, dir)
-	settings.Set(defs.OAuthProviderSetting, srv.URL)
+	settings.Set(defs.OAuthProviderSetting, w.issuer)
 	if audcfg {
 		settings.Set(defs.OAuthAudienceSetting, vAudience)
 	} else {
 		settings.Set(defs.OAuthAudienceSetting, "")
 	}
-	settings.Set(defs.OAuthASIssuerSetting, srv.URL)
+	settings.Set(defs.OAuthASIssuerSetting, w.issuer)
 	settings.Set(defs.OAuthASKeyFileSetting, keyFile)
 	settings.Set(defs.OAuthASClientFileSetting, clientFile)
 	caches.MaxCacheSize = 1 << 22
